@@ -150,6 +150,18 @@ func (x *Exec) checkAsserts(fr *frame, st *State, ins ssa.Instruction) {
 			}()
 		}
 	}
+	// store: arg(0) is the value stored; mapupdate: arg(0) the key, arg(1) the value
+	setArg := func(i int, a ssa.Value) {
+		defer func() { recover() }()
+		env.vars[fmt.Sprintf("$arg%d", i)] = x.val(fr, a)
+	}
+	switch t := ins.(type) {
+	case *ssa.Store:
+		setArg(0, t.Val)
+	case *ssa.MapUpdate:
+		setArg(0, t.Key)
+		setArg(1, t.Value)
+	}
 	for _, cl := range cls {
 		t, err := env.EvalBool(cl.E)
 		if err != nil {
